@@ -85,8 +85,11 @@ class World:
 
       # The state mixes leaf kinds on purpose: uint8 array, Python int, Python float and a reduced-precision array
       # whose update depends on NumPy's promotion rules (a Python float is weakly typed, a 0-d float64 array is not).
+      # ... plus a slot that is None until the first round fills it (the state's tree STRUCTURE changes after round 1) and a
+      # plain dict used as an LRU table: its insertion order (not its sorted order) is part of the state
       def init():
-        return {'h': np.zeros(32, np.uint8), 'round': 0, 'lr': 0.5, 'p16': np.linspace(-1, 1, 4).astype(np.float16)}
+        return {'h': np.zeros(32, np.uint8), 'round': 0, 'lr': 0.5, 'p16': np.linspace(-1, 1, 4).astype(np.float16),
+                'mom': None, 'lru': {'zeta': 0, 'alpha': 0, 'mike': 0}}
 
       def apply(state, clients):
         m = hashlib.sha256()
@@ -99,8 +102,14 @@ class World:
         p16 = state['p16'] * state['lr'] + np.float16(m.digest()[0] / 256.0)
         m.update(np.asarray(p16).tobytes())
         m.update(str(np.asarray(p16).dtype).encode())
+        mom = np.zeros(2, np.float32) if state['mom'] is None else state['mom'] * np.float32(0.5) + np.float32(m.digest()[1])
+        m.update(mom.tobytes())
+        lru = dict(state['lru'])
+        hot = sorted(lru)[m.digest()[2] % len(lru)]
+        lru[hot] = lru.pop(hot) + 1                       # move to the end, as an LRU table does
+        m.update(repr(list(lru.items())).encode())        # the ORDER of the table feeds the next state
         return {'h': np.frombuffer(m.digest(), np.uint8).copy(), 'round': state['round'] + 1, 'lr': state['lr'],
-                'p16': p16}, {}
+                'p16': p16, 'mom': mom, 'lru': lru}, {}
 
       self.algo = fedjax.FederatedAlgorithm(init, apply)
       self.init_state = init
@@ -152,7 +161,8 @@ class World:
 
   def digest(self, state):
     if self.kind == 'hash':
-      return state['h'].tobytes().hex()[:16] + f":{state['round']}:{np.asarray(state['p16']).dtype}"
+      return (state['h'].tobytes().hex()[:16] + f":{state['round']}:{np.asarray(state['p16']).dtype}:" + ','.join(state['lru']) +
+              f":{None if state['mom'] is None else state['mom'].tolist()}")
     import jax
     leaves = jax.tree_util.tree_leaves(state)
     return hashlib.sha256(b''.join(str(np.asarray(l).dtype).encode() + np.asarray(l).tobytes() for l in leaves)).hexdigest()[:16]
@@ -164,6 +174,8 @@ class World:
     lb, tb = jax.tree_util.tree_flatten(b)
     if ta != tb:
       return False
+    if self.kind == 'hash' and (list(a['lru'].items()) != list(b['lru'].items()) or (a['mom'] is None) != (b['mom'] is None)):
+      return False      # insertion order of the table / presence of the lazily created slot
     for x, y in zip(la, lb):
       kx = 'jax' if isinstance(x, jax.Array) else ('np' if isinstance(x, (np.ndarray, np.generic)) else type(x).__name__)
       ky = 'jax' if isinstance(y, jax.Array) else ('np' if isinstance(y, (np.ndarray, np.generic)) else type(y).__name__)
